@@ -175,6 +175,9 @@ func (m *c03Model) collisions(r *Run, ch *ChainSt, post *ChainView) []Violation 
 		for k := 0; k < nTargetSpellings; k++ {
 			cands = append(cands, cand{"alias:" + f, fmt.Sprint(k)})
 		}
+		for k := 0; k < 3; k++ {
+			cands = append(cands, cand{"pad:" + f, fmt.Sprint(k)})
+		}
 	}
 	hh := safeHash(honest)
 	var refDump Dump
@@ -206,7 +209,7 @@ func (m *c03Model) collisions(r *Run, ch *ChainSt, post *ChainView) []Violation 
 				msg += ": " + diff[0].String()
 			}
 			site := ev.Kind + "/" + cd.f + "/" + fieldsOf(cd.v)
-			if strings.HasPrefix(cd.f, "alias:") {
+			if strings.HasPrefix(cd.f, "alias:") || strings.HasPrefix(cd.f, "pad:") {
 				site = ev.Kind + "/" + cd.f + "/-"
 			}
 			vs = append(vs, viol("same-attestation-same-effect", site, "%s", msg))
